@@ -36,6 +36,16 @@ fn poll_next_timeout(timers_cell: &TimerWheel) -> (r: Option<Duration>)
             && exists|now: Instant| clock_read(now) && #[trigger] sat_since(timers_cell.top().dl(), now) == dur_ns(d),
 //@ tail
     next_timeout
+//@ alt
+//@ rw R10 * <<self .timers .borrow()>> => <<timers_cell>>
+//@ closure <<|deadline| deadline.saturating_duration_since(now)>>
+-> (d: Duration) ensures sat_since(deadline, now) == dur_ns(d)
+//@ sig
+/// (alternative overlay for a body that measures the time to the earliest deadline against an instant `now` it was GIVEN
+/// -- a parameter of `poll` -- instead of reading the clock: same contract, one more free variable)
+fn poll_next_timeout(timers_cell: &TimerWheel, now: Instant) -> (r: Option<Duration>)
+//@ tail
+    next_timeout
 //@ endslice
 
 //@ slice src/sys.rs / impl Poll / fn poll :: stmts <<timeout = match (timeout, next_timeout)>> .. <<timeout = match (timeout, next_timeout)>> props=C12 name=Poll::poll::timeout_clamp
